@@ -104,4 +104,14 @@ PROPS = {
         "level_text": "Machine-checked Lean 4 theorems for EVERY x < 2^64: fewer than two bits gives not-enough-cards, more than two too-many-cards; exactly two bits means x = 2^i ||| 2^j with j < i < 64 (general lemma) and then the result is Ok [deck[51-i], deck[51-j]] with from_two of it equal to x when i < 52, and invalid-binary-format otherwise (kernel pass over the 2,016 pairs through the model of peel, from_binary_card and is_valid); success iff the set is two real card bits.",
         "level_note": "Trusts: Lean kernel; rustc; extractor; the model of try_from (count, two peels, from_binary_card, is_valid) compared with the crate on all 64 x 64 one- and two-bit values and seeded values of every population count. from_binary_card's default arm is sampled on 2^64 (C14).",
     },
+    "C12": {
+        "technique": "Lean 4 kernel evaluation over the regenerated character graphs (all 1,112,064 scalars) and the create graph + proofs by cases / induction over arbitrary strings for tokens and parsers",
+        "level_text": "Machine-checked Lean 4 theorems: the rank, suit and whitespace graphs dumped over every Unicode scalar value equal the documented symbol tables; for EVERY string a card token is the card of its first two characters when they are a rank symbol and a suit symbol and blank otherwise, and is always a real card word or blank; hand parsing fails iff the text has fewer tokens than slots and otherwise fills the slots in token order; tokens are non-empty whitespace-free runs and whitespace-free text is one token; all 52 cards x 2 renderings parse back. PARTIAL: 'never panics' is observed on the real code (catch_unwind on every stream) and argued (no index or arithmetic in the parsing code); the model has no panic path.",
+        "level_note": "Trusts: Lean kernel; Spec/Symbols.lean; rustc; extractor; the model of split_whitespace / chars().next() glue compared with the crate on every pair of leading characters from a 47-character alphabet x 4 tails, hand strings with 0..9 tokens and 9 separator kinds, seeded Unicode strings; TryFrom<&'static str> reached with leaked strings.",
+    },
+    "C19": {
+        "technique": "Lean 4 proof: refinement of the slot-list model to List.set (frame law per setter, induction over arbitrary histories: last write wins), tied to the real containers by step-by-step differential histories",
+        "level_text": "Machine-checked Lean 4 theorems about the slot-list model: a setter changes exactly the named slot and nothing else; after ANY history of setters the size is unchanged and every slot holds the last word written to it or its initial word (induction over the history); constructors from parts lay words out in order; slot-index selection returns the named slots for every in-range 5-tuple. Which Rust setter / accessor name means which index is the part no theorem can carry: it is tied by histories compared after every step on all six container types, with all 27 setters, three read paths and every slot of every size.",
+        "level_note": "Trusts: Lean kernel; the correspondence (seeded histories of 1..40 setter calls with arbitrary words, every slot of every size, both composite constructors, all 6^5 + 7^5 selection tuples and out-of-range selection indices).",
+    },
 }
